@@ -15,7 +15,8 @@ func VerifC12_Project() {
 	w := vInit()
 	names := []string{"p0", "p1", "p2", "p3"}
 	var deps [][2]int // i depends on k
-	switch verifChooseK("shape", 4) {
+	pendingShape := false
+	switch verifChooseK("shape", 5) {
 	case 0:
 		verifShape("chain")
 		deps = [][2]int{{1, 0}, {2, 1}}
@@ -28,6 +29,11 @@ func VerifC12_Project() {
 	case 3:
 		verifShape("diamond")
 		deps = [][2]int{{1, 0}, {2, 0}, {3, 1}, {3, 2}}
+	case 4:
+		// p1 waits for p0 to complete: while p0 runs, p1 is Pending when the shutdown begins
+		verifShape("pending.dependent")
+		deps = [][2]int{{1, 0}}
+		pendingShape = true
 	}
 	n := 3
 	if len(deps) == 4 {
@@ -45,7 +51,11 @@ func VerifC12_Project() {
 		}
 	}
 	for _, d := range deps {
-		confs[d[0]].DependsOn[names[d[1]]] = types.ProcessDependency{Condition: types.ProcessConditionStarted}
+		cond := types.ProcessConditionStarted
+		if pendingShape {
+			cond = types.ProcessConditionCompleted
+		}
+		confs[d[0]].DependsOn[names[d[1]]] = types.ProcessDependency{Condition: cond}
 	}
 	var mu sync.Mutex
 	shutdownBegan := false
